@@ -32,6 +32,7 @@ const watchdog = 25 * time.Second
 
 type arrival struct {
 	returned bool
+	inner    bool // result of an operation performed inside a re-entrant store hook
 	site     int
 	obj      any
 	ret      string
@@ -44,6 +45,11 @@ type thread struct {
 	site    int  // yield site it is parked at (0 when blocked / not parked)
 	lazy    any  // *lazy seen at site 3 (valid until the operation leaves fn.Do)
 	blocked bool // released at site 3 while the lazy's initialiser is parked: waiting for fn.mu
+
+	curOp   string        // kind of the operation in flight ("ash", "store", …)
+	inHook  bool          // inside the re-entrant store hook called by AddStoreHook
+	inInner atomic.Bool   // performing an operation inside that hook: yield points are not honoured
+	inner   func() string // the operation to perform inside the hook on the next release (nil: return from the hook)
 }
 
 type ctl struct {
@@ -80,6 +86,9 @@ func (c *ctl) yield(site int, obj any) {
 		return // not a controlled goroutine
 	}
 	th := c.threads[t]
+	if th.inInner.Load() {
+		return // an operation performed inside a store hook runs through
+	}
 	th.arrive <- arrival{site: site, obj: obj}
 	<-th.release
 }
@@ -121,6 +130,7 @@ type stepCase struct {
 	l     *process.Local[int]
 	procs []*process.Process
 	shook []process.StoreHook[int]
+	reHook process.StoreHook[int] // hook id 100: re-enters the Local / exits the process while it runs
 	hmu   sync.Mutex
 	log   []string // store-hook calls "h:v"
 	inits []atomic.Int64
@@ -145,6 +155,7 @@ func newStepCase(c *lib.Ctx, sc *lib.Script, fails *[]lib.OracleFail, nthreads, 
 	s.inits = make([]atomic.Int64, nprocs)
 	s.exitStarted = make([]bool, nprocs)
 	s.delCapable = make([]bool, nprocs)
+	s.reHook = process.StoreFunc(func(v int) { s.reentrant(v) })
 	for h := 0; h < 3; h++ {
 		h := h
 		s.shook = append(s.shook, process.StoreFunc(func(v int) {
@@ -214,6 +225,57 @@ func (s *stepCase) obs() {
 		fmt.Sprintf("keys=%s eager=%d lazy=%d hooks=%d inits=%s log=%s", commaInts(ks), e, lz, hk, commaInts(in), lg))
 }
 
+const reHookID = 100
+
+// reentrant is the body of store hook 100. Called by AddStoreHook for a value that is already
+// there (the calling thread's operation is `ash`) it parks at yield site 8 INSIDE the hook; every
+// release either carries an operation to perform right here, on the same goroutine (Load / Keys /
+// Store / Delete on the same Local, Exit of the process – the code must call the hook with the
+// Local's lock released for these to return), or lets the hook return. Called from the fetched
+// hooks of Store / LoadOrStore, or nested, it only logs.
+func (s *stepCase) reentrant(v int) {
+	logIt := func() {
+		s.hmu.Lock()
+		s.log = append(s.log, fmt.Sprintf("%d:%d", reHookID, v))
+		s.hmu.Unlock()
+	}
+	t, ok := s.ctl.tid()
+	if !ok {
+		logIt()
+		return
+	}
+	th := s.ctl.threads[t]
+	if th.curOp != "ash" || th.inHook {
+		logIt()
+		return
+	}
+	th.inHook = true
+	th.arrive <- arrival{site: 8}
+	for {
+		<-th.release
+		op := th.inner
+		if op == nil {
+			break
+		}
+		th.inner = nil
+		th.inInner.Store(true)
+		r := op()
+		th.inInner.Store(false)
+		th.arrive <- arrival{inner: true, ret: r}
+	}
+	th.inHook = false
+	logIt()
+}
+
+func goroutineDump() string {
+	buf := make([]byte, 1<<20)
+	n := runtime.Stack(buf, true)
+	if n > 40000 {
+		n = 40000
+	}
+	return "# goroutine dump at the time the watchdog fired\n" + string(buf[:n])
+}
+
 var errInit = errors.New("init failed")
 
 // opFunc builds the real operation for a call line's tokens (after "call t").
@@ -272,10 +334,13 @@ func (s *stepCase) opFunc(f []string) (func() string, bool) {
 		s.delCapable[p] = true
 		return func() string { return strconv.FormatBool(s.l.Delete(s.procs[p])) }, true
 	case "ash":
-		if !need(3) || !pOK(1) || atoi(2) < 0 || atoi(2) >= len(s.shook) {
+		if !need(3) || !pOK(1) || atoi(2) < 0 || (atoi(2) >= len(s.shook) && atoi(2) != reHookID) {
 			return nil, false
 		}
 		p, h := atoi(1), atoi(2)
+		if h == reHookID {
+			return func() string { return strconv.FormatBool(s.l.AddStoreHook(s.procs[p], s.reHook)) }, true
+		}
 		return func() string { return strconv.FormatBool(s.l.AddStoreHook(s.procs[p], s.shook[h])) }, true
 	case "close":
 		if !need(1) {
@@ -355,8 +420,40 @@ func (s *stepCase) do(line string) bool {
 			return false
 		}
 		s.c.Hit("step-op-" + f[2])
+		th.curOp = f[2]
 		s.ctl.start(t, op)
 		return s.settle(t, line)
+	case "inner":
+		// thread t is parked inside its re-entrant store hook and performs the operation there
+		if !th.busy || th.site != 8 || len(f) < 3 {
+			return false
+		}
+		switch f[2] {
+		case "load", "keys", "store", "delete", "exit":
+		default:
+			return false
+		}
+		op, ok := s.opFunc(f[2:])
+		if !ok {
+			return false
+		}
+		s.c.Hit("step-inner-" + f[2])
+		th.inner = op
+		th.release <- struct{}{}
+		a, ok := s.ctl.await(t)
+		if !ok {
+			s.wedge = true
+			s.emit(line, "wedged")
+			if len(*s.fails) < 20 {
+				*s.fails = append(*s.fails, lib.OracleFail{Class: "store-hook-deadlock",
+					What:   fmt.Sprintf("%q performed inside the store hook that AddStoreHook calls for a value already stored did not return within %v: the hook is not called with the Local's lock released", strings.Join(f[2:], " "), watchdog),
+					Replay: strings.Join(s.trace, "\n") + "\n" + goroutineDump()})
+			}
+			return false
+		}
+		s.emit(line, "ret "+a.ret)
+		s.obs()
+		return true
 	case "run":
 		if !th.busy || th.blocked || len(f) != 2 {
 			return false
@@ -495,6 +592,9 @@ func genCall(rng *lib.RNG, t, nprocs int) string {
 	case 4:
 		return fmt.Sprintf("call %d delete %d", t, p)
 	case 5:
+		if rng.Chance(2, 5) {
+			return fmt.Sprintf("call %d ash %d %d", t, p, reHookID) // the re-entrant hook
+		}
 		return fmt.Sprintf("call %d ash %d %d", t, p, rng.Intn(3))
 	case 6:
 		return fmt.Sprintf("call %d close", t)
@@ -518,11 +618,33 @@ func runStepCase(c *lib.Ctx, rng *lib.RNG, sc *lib.Script, fails *[]lib.OracleFa
 		if len(idle) > 0 && (len(rel) == 0 || rng.Chance(2, 5)) {
 			s.do(genCall(rng, lib.Pick(rng, idle), nprocs))
 		} else if len(rel) > 0 {
-			s.do(fmt.Sprintf("run %d", lib.Pick(rng, rel)))
+			t := lib.Pick(rng, rel)
+			if s.ctl.threads[t].site == 8 && rng.Chance(3, 5) {
+				s.do(genInner(rng, t, nprocs))
+			} else {
+				s.do(fmt.Sprintf("run %d", t))
+			}
 		}
 	}
 	s.finish(rng)
 	return strings.Join(s.trace, ";"), !s.wedge
+}
+
+// genInner draws what thread t, parked inside its re-entrant store hook, does there.
+func genInner(rng *lib.RNG, t, nprocs int) string {
+	p := rng.Intn(nprocs)
+	switch rng.Weighted([]int{3, 1, 3, 3, 3}) {
+	case 0:
+		return fmt.Sprintf("inner %d load %d", t, p)
+	case 1:
+		return fmt.Sprintf("inner %d keys %d", t, nprocs)
+	case 2:
+		return fmt.Sprintf("inner %d store %d %d", t, p, rng.Range(1, 9))
+	case 3:
+		return fmt.Sprintf("inner %d delete %d", t, p)
+	default:
+		return fmt.Sprintf("inner %d exit %d", t, p)
+	}
 }
 
 // runStepCorpus replays a corpus file (action lines; `obs` lines are regenerated).
